@@ -46,6 +46,9 @@ theorem inv_mul_self (a : Nat) (ha : a < 256) (h0 : a ≠ 0) :
   refine ⟨inv' a, ?_, inv_lt a ha, inv_mul a ha h0⟩
   unfold inv inv'; rw [if_neg h0]
 
+/-- the exp/log tables have exactly the 256 entries the arithmetic indexes -/
+theorem table_lengths : Gen.GF.expLen = 256 ∧ Gen.GF.logLen = 256 := Lemmas.GF.table_lengths
+
 /-- closure -/
 theorem closed (a b : Nat) (ha : a < 256) (hb : b < 256) : add a b < 256 ∧ mul a b < 256 :=
   ⟨add_lt ha hb, mul_lt ha hb⟩
